@@ -17,9 +17,11 @@ structure AlphaAt (ν : Ren) (n : Nat) : Prop where
   guards : ∀ ctx env l gs, evalGuards n (rnCtx ν ctx) (rnEnv ν env) l (rnGuards ν (names env) gs) = evalGuards n ctx env l gs
   quals : ∀ ctx env qs body ty o, evalQuals n (rnCtx ν ctx) (rnEnv ν env) (rnQuals ν (names env) qs) (rnE ν (qualBinders qs ++ names env) body) ty o = evalQuals n ctx env qs body ty o
   gen : ∀ ctx env x lc i qs body ty o, evalGen n (rnCtx ν ctx) (rnEnv ν env) (ν x env.length) lc i (rnQuals ν (x :: names env) qs) (rnE ν (qualBinders qs ++ (x :: names env)) body) ty o = evalGen n ctx env x lc i qs body ty o
+  forRng : ∀ ctx env x ao cur asc lt b, evalForRng n (rnCtx ν ctx) (rnEnv ν env) (ν x env.length) ao cur asc lt (rnE ν (x :: names env) b) = evalForRng n ctx env x ao cur asc lt b
+  genRng : ∀ ctx env x ao cur asc lt qs body ty o, evalGenRng n (rnCtx ν ctx) (rnEnv ν env) (ν x env.length) ao cur asc lt (rnQuals ν (x :: names env) qs) (rnE ν (qualBinders qs ++ (x :: names env)) body) ty o = evalGenRng n ctx env x ao cur asc lt qs body ty o
 
 theorem alpha_zero : AlphaAt ν 0 := by
-  constructor <;> intros <;> simp [evalE, evalArgs, evalSeq, evalWhile, evalDoWhile, evalFor, evalForIn, callClo, handle, evalGuards, evalQuals, evalGen]
+  constructor <;> intros <;> simp [evalE, evalArgs, evalSeq, evalWhile, evalDoWhile, evalFor, evalForIn, callClo, handle, evalGuards, evalQuals, evalGen, evalForRng, evalGenRng]
 
 theorem alpha_e (hν : Adm ν) (n : Nat) (ih : AlphaAt ν n) (ctx : Ctx) (env : Env) (e : Expr) :
     evalE (n + 1) (rnCtx ν ctx) (rnEnv ν env) (rnE ν (names env) e) = evalE (n + 1) ctx env e := by
@@ -38,6 +40,7 @@ theorem alpha_e (hν : Adm ν) (n : Nat) (ih : AlphaAt ν n) (ctx : Ctx) (env : 
   | «for» i c s b => simp only [rnE, evalE, ih.e, ih.for_]
   | forIn x coll b => simp only [rnE, evalE, ih.e, length_names, ih.forIn]
   | call f args => simp only [rnE, evalE, ih.e, ih.args, ih.call]
+  | pipe l f args => simp only [rnE, evalE, ih.e, ih.args, ih.call]
   | builtin b args => simp only [rnE, evalE, ih.args]
   | lam fn =>
     obtain ⟨id, nm, ps, r, body, cs⟩ := fn
@@ -59,6 +62,8 @@ theorem alpha_e (hν : Adm ν) (n : Nat) (ih : AlphaAt ν n) (ctx : Ctx) (env : 
     simp only [rnGuards, rnGuard] at h
     simp only [rnE, evalE, ih.e, h]
   | listcomp body quals ty => simp only [rnE, evalE, ih.quals]
+  | range bounds => simp only [rnE, evalE, ih.args]
+  | slice a bounds => simp only [rnE, evalE, ih.e, ih.args]
 
 theorem bind_congr {m : M α} {k k' : α → M β} (h : ∀ a, k a = k' a) : (m >>= k) = (m >>= k') := by
   have : k = k' := funext h
@@ -109,7 +114,16 @@ theorem alpha_forIn (n : Nat) (ih : AlphaAt ν n) (ctx : Ctx) (env : Env) (x : N
   have h1 : ∀ l, evalE n (rnCtx ν ctx) ((ν x env.length, l) :: rnEnv ν env) (rnE ν (x :: names env) b)
       = evalE n ctx ((x, l) :: env) b := fun l => by
     simpa [rnEnv_cons] using ih.e ctx ((x, l) :: env) b
-  simp only [evalForIn, h1, ih.forIn]
+  simp only [evalForIn, h1, ih.forIn, ih.forRng]
+
+theorem alpha_forRng (n : Nat) (ih : AlphaAt ν n) (ctx : Ctx) (env : Env) (x : Name) (ao : Option Loc) (cur : Int) (asc : Bool)
+    (lt : Loc) (b : Expr) :
+    evalForRng (n + 1) (rnCtx ν ctx) (rnEnv ν env) (ν x env.length) ao cur asc lt (rnE ν (x :: names env) b)
+      = evalForRng (n + 1) ctx env x ao cur asc lt b := by
+  have h1 : ∀ l, evalE n (rnCtx ν ctx) ((ν x env.length, l) :: rnEnv ν env) (rnE ν (x :: names env) b)
+      = evalE n ctx ((x, l) :: env) b := fun l => by
+    simpa [rnEnv_cons] using ih.e ctx ((x, l) :: env) b
+  simp only [evalForRng, h1, ih.forRng]
 
 theorem alpha_call (n : Nat) (ih : AlphaAt ν n) (ctx : Ctx) (fid : Nat) (cells as : List Loc) :
     callClo (n + 1) (rnCtx ν ctx) fid cells as = callClo (n + 1) ctx fid cells as := by
@@ -176,7 +190,16 @@ theorem alpha_gen (n : Nat) (ih : AlphaAt ν n) (ctx : Ctx) (env : Env) (x : Nam
   have h1 : ∀ l, evalQuals n (rnCtx ν ctx) ((ν x env.length, l) :: rnEnv ν env) (rnQuals ν (x :: names env) qs)
       (rnE ν (qualBinders qs ++ (x :: names env)) body) ty o = evalQuals n ctx ((x, l) :: env) qs body ty o := fun l => by
     simpa [rnEnv_cons] using ih.quals ctx ((x, l) :: env) qs body ty o
-  simp only [evalGen, h1, ih.gen]
+  simp only [evalGen, h1, ih.gen, ih.genRng]
+
+theorem alpha_genRng (n : Nat) (ih : AlphaAt ν n) (ctx : Ctx) (env : Env) (x : Name) (ao : Option Loc) (cur : Int) (asc : Bool)
+    (lt : Loc) (qs : List Qual) (body : Expr) (ty : Ty) (o : Loc) :
+    evalGenRng (n + 1) (rnCtx ν ctx) (rnEnv ν env) (ν x env.length) ao cur asc lt (rnQuals ν (x :: names env) qs)
+        (rnE ν (qualBinders qs ++ (x :: names env)) body) ty o = evalGenRng (n + 1) ctx env x ao cur asc lt qs body ty o := by
+  have h1 : ∀ l, evalQuals n (rnCtx ν ctx) ((ν x env.length, l) :: rnEnv ν env) (rnQuals ν (x :: names env) qs)
+      (rnE ν (qualBinders qs ++ (x :: names env)) body) ty o = evalQuals n ctx ((x, l) :: env) qs body ty o := fun l => by
+    simpa [rnEnv_cons] using ih.quals ctx ((x, l) :: env) qs body ty o
+  simp only [evalGenRng, h1, ih.genRng]
 
 theorem alphaAt (hν : Adm ν) : ∀ n, AlphaAt ν n
   | 0 => alpha_zero
@@ -193,6 +216,8 @@ theorem alphaAt (hν : Adm ν) : ∀ n, AlphaAt ν n
       hdl := alpha_hdl n ih
       guards := alpha_guards n ih
       quals := alpha_quals n ih
-      gen := alpha_gen n ih }
+      gen := alpha_gen n ih
+      forRng := alpha_forRng n ih
+      genRng := alpha_genRng n ih }
 
 end Never.Src
